@@ -260,6 +260,21 @@ class C20(Prop):
             g = G.Gen(rng)
             g.R, g.S, g.M, g.A, g.V = ROOTS, PARTS, PARTS, PARTS, VN
             prog = g.program(nstmts=rng.choice([1, 1, 2, 3]))
+            # `del NAME` / `global NAME; del NAME` of names that only the caller's namespaces bind (the property's claim
+            # "namespaces are left unmodified" holds for all code, also for code outside C05's claimed domain)
+            keys = sorted({k for d in nss for k in d if "." not in k}) or VN
+            for _ in range(rng.choice([0, 0, 1, 1, 2])):
+                n = rng.choice(keys + VN[:1])
+                r2 = rng.random()
+                if r2 < 0.45:
+                    st = ["delete", [["name", n]]]
+                elif r2 < 0.6:
+                    st = ["delete", [["name", n], ["attr", ["name", rng.choice(keys)], rng.choice(PARTS)]]]
+                elif r2 < 0.85:
+                    st = ["funcDef", "f", {"args": [], "defaults": []}, [["global", [n]], ["delete", [["name", n]]]], [], None]
+                else:
+                    st = ["classDef", "C", [], [["delete", [["name", n]]]], []]
+                prog["body"].insert(rng.randrange(len(prog["body"]) + 1), st)
             code = dict(mode="prog" if rng.random() < 0.7 else "ast", prog=prog)
         return dict(objs=objs, registry=registry, ns=nss, code=code)
 
